@@ -68,6 +68,12 @@ def run(repo, rep, tier):
     _abnormal_exit_rule(repo, rep)
     _per_name_rule(repo, rep)
     _restore_vs_global(repo, rep)
+    # a variable is visible within the defining element only: the slot
+    # content a caller supplies replaces the element *including* its
+    # definitions (define-slot encloses define in the node nesting)
+    from . import c01
+    L.borrow(repo, rep, "R05.1", "C01", c01.order,
+             ("order:define-slot><define>",))
     # names bound inside one expression (lambda parameters, comprehension
     # variables) must not change how any other expression's names are
     # looked up: the rewriter's scopes are copies, closed on every exit
@@ -77,6 +83,14 @@ def run(repo, rep, tier):
     _reserved_rule(repo, rep)
     _nametransform_rule(repo, rep)
     _scope_rule(repo, rep)
+
+
+def brackets(repo, rep):
+    """the R05.1 bracket rule for both binders, callable by neighbours"""
+    for name in ("visit_Define", "visit_Repeat"):
+        func = repo.func(COMP + name)
+        res = L.emission(repo, COMP + name)
+        _bracket_rule(rep, func, L.Lin(res.emission))
 
 
 def _bracket_rule(rep, func, lin):
